@@ -46,18 +46,25 @@ class ElemExec:
         self.max_inline = max_inline
 
     # ------------------------------------------------------------------
-    def function(self, name, scalars: dict | None = None, alias: dict | None = None, depth=0, cells: dict | None = None):
+    def function(self, name, scalars: dict | None = None, alias: dict | None = None, depth=0, cells: dict | None = None, prefix: dict | None = None, pointers: dict | None = None):
         """Execute function `name`.  scalars: parameter name -> sympy value; alias: array parameter -> array name
         seen by the caller.  Returns State."""
         fn = self.tu.functions.get(name)
         if fn is None:
             raise AnalysisError(f"{self.where}: function {name} not found")
         st = State(self, name, dict(scalars or {}), dict(alias or {}), depth)
+        st.prefix = dict(prefix or {})      # array parameter that is a sub-array of the caller's: leading subscripts
+        st.pointers = set(pointers or ())   # scalar out-parameters (double *p bound to &x): '*p' is a scalar of its own
+        for pn in st.pointers:
+            st.alias.pop(pn, None)
+        for pn, v in (pointers or {}).items():
+            if v is not None:
+                st.scalars["*" + pn] = v
         for pn, pats in (cells or {}).items():
             st.cells[pn] = list(pats)  # a local array of the caller handed to this callee: its cells are known
         for p in cast.params(fn):
             pn = p.get("name")
-            if pn not in st.scalars and pn not in st.alias:
+            if pn not in st.scalars and pn not in st.alias and pn not in st.pointers:
                 qt = cast.qtype(p)
                 if "*" in qt or "[" in qt:
                     st.alias[pn] = pn
@@ -81,6 +88,8 @@ class State:
         self.level: dict = {}  # scalar name -> generic-loop depth at its last plain assignment
         self.glevel: dict = {}  # scalar / cell -> number of guards in force at its last plain assignment
         self.guards: list = []  # indicator factors of the data-dependent conditions that enclose the current statement
+        self.prefix: dict = {}
+        self.pointers: set = set()
 
     # -- expressions --------------------------------------------------------
     def base_and_idx(self, e):
@@ -92,7 +101,8 @@ class State:
             cur = _unwrap(a)
         if cur.get("kind") != "DeclRefExpr":
             raise AnalysisError(f"{self.ex.where}::{self.fname}: subscript base not a plain array: {cast.text(e)}")
-        return cur["referencedDecl"]["name"], tuple(sp.expand(x) for x in reversed(idx))
+        nm = cur["referencedDecl"]["name"]
+        return nm, tuple(self.prefix.get(nm, ())) + tuple(sp.expand(x) for x in reversed(idx))
 
     def _unify(self, pat, lvs, idx):
         """Match a stored cell pattern (subscripts over the generic loop variables lvs) against a concrete subscript.
@@ -189,6 +199,11 @@ class State:
             if nm in self.ex.consts:
                 return self.ex.consts[nm]
             raise AnalysisError(f"{self.ex.where}::{self.fname}: scalar '{nm}' read before it has a symbolic value")
+        if k == "UnaryOperator" and e.get("opcode") == "*" and _unwrap(ks[0]).get("kind") == "DeclRefExpr" and _unwrap(ks[0])["referencedDecl"]["name"] in self.pointers:
+            pn = "*" + _unwrap(ks[0])["referencedDecl"]["name"]
+            if pn not in self.scalars:
+                raise AnalysisError(f"{self.ex.where}::{self.fname}: '{pn}' read before it has a value")
+            return self.scalars[pn]
         if k == "UnaryOperator":
             op = e.get("opcode")
             v = self.expr(ks[0])
@@ -227,7 +242,7 @@ class State:
                 return sp.Function(nm)(*[self.opaque_arg(a) for a in args])
             if nm in self.ex.tu.functions and self.depth < self.ex.max_inline:
                 callee = self.ex.tu.functions[nm]
-                sc, al, shared = {}, {}, {}
+                sc, al, shared, pf = {}, {}, {}, {}
                 for p, a in zip(cast.params(callee), args):
                     qt = cast.qtype(p)
                     if "*" in qt or "[" in qt:
@@ -238,11 +253,15 @@ class State:
                             if an in self.cells and an not in self.alias:
                                 # local array handed to the callee: share its cells
                                 shared[p["name"]] = self.cells[an]
+                        elif ua.get("kind") == "ArraySubscriptExpr":
+                            b_, pre = self.base_and_idx(ua)  # a row / sub-array of the caller's array
+                            al[p["name"]] = self.alias.get(b_, b_)
+                            pf[p["name"]] = pre
                         else:
                             raise AnalysisError(f"{self.ex.where}::{self.fname}: array argument '{cast.text(a)}' of {nm} is not a plain name")
                     else:
                         sc[p["name"]] = self.expr(a)
-                sub = self.ex.function(nm, sc, al, self.depth + 1, cells=shared)
+                sub = self.ex.function(nm, sc, al, self.depth + 1, cells=shared, prefix=pf)
                 if sub.ret is None:
                     raise AnalysisError(f"{self.ex.where}::{self.fname}: inlined {nm} returns no value")
                 return sub.ret
@@ -281,8 +300,9 @@ class State:
 
     def store(self, lhs, val, op="="):
         lhs = _unwrap(lhs)
-        if lhs.get("kind") == "DeclRefExpr":
-            nm = lhs["referencedDecl"]["name"]
+        deref = lhs.get("kind") == "UnaryOperator" and lhs.get("opcode") == "*" and _unwrap(cast.kids(lhs)[0]).get("kind") == "DeclRefExpr" and _unwrap(cast.kids(lhs)[0])["referencedDecl"]["name"] in self.pointers
+        if lhs.get("kind") == "DeclRefExpr" or deref:
+            nm = lhs["referencedDecl"]["name"] if not deref else "*" + _unwrap(cast.kids(lhs)[0])["referencedDecl"]["name"]
             if self.guards and op in ("+=", "-="):
                 val = val * self.guard_factor(self.glevel.get(nm, 0))
             if op == "=":
@@ -470,6 +490,43 @@ class State:
             if k == "CallExpr":
                 nm = cast.callee_name(s)
                 if nm in ("free", "printf", "fprintf"):
+                    continue
+                if nm in self.ex.tu.functions and nm not in self.ex.opaque and nm not in self.ex.opaque_out and self.depth < self.ex.max_inline:
+                    # a void helper of the same file: inline it; `&x` arguments are scalar results, rows of the caller's
+                    # arrays are arrays with leading subscripts
+                    callee = self.ex.tu.functions[nm]
+                    sc, al, pf, ptr, back = {}, {}, {}, {}, {}
+                    for p_, a in zip(cast.params(callee), ks[1:]):
+                        qt = cast.qtype(p_)
+                        ua = _unwrap(a)
+                        if ua.get("kind") == "UnaryOperator" and ua.get("opcode") == "&" and _unwrap(cast.kids(ua)[0]).get("kind") == "DeclRefExpr":
+                            x = _unwrap(cast.kids(ua)[0])["referencedDecl"]["name"]
+                            ptr[p_["name"]] = self.scalars.get(x)
+                            back[p_["name"]] = x
+                        elif "*" in qt or "[" in qt:
+                            if ua.get("kind") == "DeclRefExpr":
+                                an = ua["referencedDecl"]["name"]
+                                if an in self.cells and an not in self.alias:
+                                    raise AnalysisError(f"{self.ex.where}::{self.fname}: local array '{an}' handed to the void helper {nm} is not modelled")
+                                al[p_["name"]] = self.alias.get(an, an)
+                                if an in self.prefix:
+                                    pf[p_["name"]] = self.prefix[an]
+                            elif ua.get("kind") == "ArraySubscriptExpr":
+                                b_, pre = self.base_and_idx(ua)
+                                al[p_["name"]] = self.alias.get(b_, b_)
+                                pf[p_["name"]] = pre
+                            else:
+                                raise AnalysisError(f"{self.ex.where}::{self.fname}: array argument '{cast.text(a)}' of {nm}")
+                        else:
+                            sc[p_["name"]] = self.expr(a)
+                    sub = self.ex.function(nm, sc, al, self.depth + 1, prefix=pf, pointers=ptr)
+                    if any(b for b in sub.cells if b not in sub.local_arrays):
+                        raise AnalysisError(f"{self.ex.where}::{self.fname}: the void helper {nm} writes arrays of its caller ({sorted(sub.cells)}): not modelled")
+                    for pn, x in back.items():
+                        if "*" + pn in sub.scalars:
+                            self.scalars[x] = sub.scalars["*" + pn]
+                            self.level[x] = len(self.loopvars)
+                            self.glevel[x] = len(self.guards)
                     continue
                 if nm in self.ex.opaque_out:
                     # a void callee that fills one array from the others: cell r of that array is an uninterpreted
